@@ -35,13 +35,16 @@ class Case:
     """A shape case for verifying a function: build(E, st) -> env of params."""
 
     def __init__(self, name, build, requires=None, ensures=None, raises=None,
-                 assume_false_ok=False, fresh_result=None):
+                 assume_false_ok=False, fresh_result=None, expect_no_exit=False,
+                 witness=None):
         self.name = name
         self.build = build
         self.requires = requires or []
         self.ensures = ensures
         self.raises = raises
         self.fresh_result = fresh_result
+        self.expect_no_exit = expect_no_exit
+        self.witness = witness or {}      # hints for the precondition-satisfiable check
 
 
 class Contract:
@@ -50,7 +53,8 @@ class Contract:
                  mod_slots=None, loops=None, cases=None, inline=False,
                  use_at_calls=True, applicable=None, inline_fallback=False,
                  recursive_ok=False, fresh_result=False, may_raise_other=False,
-                 opaque=None, merge=True, cuts=None, ghosts=None, note=""):
+                 opaque=None, merge=True, cuts=None, ghosts=None, ghost_init=None,
+                 on_yield=None, note=""):
         self.key = key
         self.requires = _lst(requires)
         self.ensures = _lst(ensures)
@@ -72,6 +76,8 @@ class Contract:
         self.opaque = list(opaque or [])
         self.merge = merge
         self.ghosts = dict(ghosts or {})    # free (universally quantified) constants
+        self.ghost_init = ghost_init        # callable(E, st, env): ghost variables
+        self.on_yield = on_yield            # callable(E, st, env, value) at each yield
         self.cuts = list(cuts or [])   # [(source-prefix, [assertion texts])]
         self.note = note
 
@@ -112,6 +118,7 @@ class Engine(ExprMixin, CallMixin, StmtMixin):
         self.on_yield = None
         self.ghost_consts = {}
         self.extra_builtins = {}
+        self.exit_locals = None
         self.opaque = {}
         self.aliases = {}
         self.sym_modattrs = {}
@@ -220,6 +227,9 @@ class Engine(ExprMixin, CallMixin, StmtMixin):
         if env is None:
             raise ContractBindingError("case %s does not bind to %s" % (case.name, key))
         self.cur_self = env.get("self") if c.modifies_self else None
+        self.on_yield = c.on_yield
+        if c.ghost_init is not None:
+            c.ghost_init(self, st, env)
         self.param_recipe = {k: self.describe(v, st) for k, v in env.items()
                              if not k.startswith("__")}
         for o in st.heap.values():
@@ -232,7 +242,9 @@ class Engine(ExprMixin, CallMixin, StmtMixin):
             (s_, b), = self.truth(v, st)
             st.assume(b)
         pre_sat = self.feasible(st.pc)
-        self.vcs.append(VC("%s.pre-satisfiable" % self.cur_name, list(st.pc),
+        wit = [(z3.Int(k) == v) if isinstance(v, int) else (z3.Real(k) == v)
+               for k, v in case.witness.items()]
+        self.vcs.append(VC("%s.pre-satisfiable" % self.cur_name, list(st.pc) + wit,
                            "SAT", "vacuity", key, case.name))
         old_env = dict(env)
         old_heap = {k: h.copy() for k, h in st.heap.items()}
@@ -263,6 +275,10 @@ class Engine(ExprMixin, CallMixin, StmtMixin):
             if sig not in ("return", "fall"):
                 raise OutOfReach("stray %s at function level" % sig)
             nret += 1
+            if case.expect_no_exit:
+                self.oblige("%s.never-exits#%s" % (self.cur_name, self.path_tag(s)), s,
+                            False, kind="post")
+                continue
             tag = "#%s" % self.path_tag(s)
             for (exc, cond) in raises:
                 (s_, cv) = self.eval_in_old(cond, old_env, old_heap, s)
@@ -270,6 +286,7 @@ class Engine(ExprMixin, CallMixin, StmtMixin):
                             z_not(cv), kind="noraise")
             en2 = dict(old_env)
             en2["result"] = v
+            self.exit_locals = en
             if v is None and (c.returns is not None or c.result is not None):
                 self.oblige("%s.post[returns-a-value]%s" % (self.cur_name, tag), s,
                             False, kind="post")
@@ -297,10 +314,12 @@ class Engine(ExprMixin, CallMixin, StmtMixin):
                 self.oblige("%s.frame[result-fresh]%s" % (self.cur_name, tag), s,
                             ok, kind="frame")
         self.old_stack = []
-        if nret == 0 and not any(sig == "raise" for (_, _, sig, _) in outs):
+        if nret == 0 and not case.expect_no_exit and \
+                not any(sig == "raise" for (_, _, sig, _) in outs):
             raise ContractBindingError(
                 "no path of %s reaches an exit (vacuous verification)" % self.cur_name)
-        if pre_sat and not any(self.feasible(pc) for pc in exit_pcs):
+        if pre_sat and not case.expect_no_exit and \
+                not any(self.feasible(pc) for pc in exit_pcs):
             raise ContractBindingError(
                 "every exit path of %s is infeasible although the precondition is "
                 "satisfiable: a callee contract or invariant is contradictory"
@@ -405,6 +424,14 @@ class Engine(ExprMixin, CallMixin, StmtMixin):
         t = ",".join("%d%s" % (ln, "T" if b else "F") for ln, b in st.trace)
         return hashlib.md5(t.encode()).hexdigest()[:6] if t else "0"
 
-    # generators: contract-described elsewhere
+    # generators: a call yields the contract-described sequence
     def call_generator(self, info, env, st, node=None):
-        raise OutOfReach("generator call " + info.key)
+        c = self.contracts.get(info.key)
+        if c is None or getattr(c, "sequence", None) is None:
+            raise OutOfReach("generator call %s without a sequence contract" % info.key)
+        site = "%s.call[%s@%s]" % (self.cur_name, info.qualname, getattr(node, "lineno", "?"))
+        for i, r in enumerate(c.requires):
+            (s_, v) = self.ev1(self.parse(r), env, st)
+            (s_, b), = self.truth(v, st)
+            self.oblige("%s.pre[%d]" % (site, i), st, b, kind="call-pre")
+        return [(st, c.sequence(self, st, env))]
